@@ -17,10 +17,10 @@ example : ProvedTr.length = 19 := by decide
     C06_inv.lean). Not covered: `PossibleFragmentSpreads` (needs the renaming of the fragment-type table),
     `NoFragmentCycles`, `OverlappingFieldsCanBeMerged`, the four variable rules. -/
 theorem tr_invariance_all_partial (T : Tr) (hinj : ∀ a b, T.frag a = T.frag b → a = b) (s : SchemaD) (fx : Fixes) (d : Doc)
-    (r : Rule) (hr : r ∈ ProvedTr) : Silent s fx r (T.doc d) ↔ Silent s fx r d := by
+    (r : Rule) (hr : r ∈ ProvedTr) (hns : r ≠ .singleFieldSubscriptions) : Silent s fx r (T.doc d) ↔ Silent s fx r d := by
   simp only [ProvedTr, List.mem_append] at hr
   rcases hr with (hr | hr) | hr
-  · exact tr_invariance_partial T hinj s fx d r hr
+  · exact tr_invariance_partial T hinj s fx d r hr hns
   · have hp : r ∈ ProvedPermDefs := by simp only [ProvedPermDefs, List.mem_append]; exact Or.inr hr
     rw [rule_iff_permdefs s fx _ r hp, rule_iff_permdefs s fx d r hp]
     exact spec_tr_more T hinj s fx d r hr
@@ -29,18 +29,18 @@ theorem tr_invariance_all_partial (T : Tr) (hinj : ∀ a b, T.frag a = T.frag b 
     exact tr_invariance_values T s fx d
 
 theorem perm_selections_all_partial (π : List Sel → List Sel) (hπ : ∀ l, (π l).Perm l) (s : SchemaD) (fx : Fixes) (d : Doc)
-    (r : Rule) (hr : r ∈ ProvedTr) :
+    (r : Rule) (hr : r ∈ ProvedTr) (hns : r ≠ .singleFieldSubscriptions) :
     Silent s fx r ((Tr.mk π id id hπ (fun _ => List.Perm.refl _)).doc d) ↔ Silent s fx r d :=
-  tr_invariance_all_partial _ (fun _ _ e => e) s fx d r hr
+  tr_invariance_all_partial _ (fun _ _ e => e) s fx d r hr hns
 
 theorem perm_arguments_all_partial (π : List Arg → List Arg) (hπ : ∀ l, (π l).Perm l) (s : SchemaD) (fx : Fixes) (d : Doc)
-    (r : Rule) (hr : r ∈ ProvedTr) :
+    (r : Rule) (hr : r ∈ ProvedTr) (hns : r ≠ .singleFieldSubscriptions) :
     Silent s fx r ((Tr.mk id π id (fun _ => List.Perm.refl _) hπ).doc d) ↔ Silent s fx r d :=
-  tr_invariance_all_partial _ (fun _ _ e => e) s fx d r hr
+  tr_invariance_all_partial _ (fun _ _ e => e) s fx d r hr hns
 
 theorem alpha_fragments_all_partial (ρ : String → String) (hρ : ∀ a b, ρ a = ρ b → a = b) (s : SchemaD) (fx : Fixes) (d : Doc)
-    (r : Rule) (hr : r ∈ ProvedTr) :
+    (r : Rule) (hr : r ∈ ProvedTr) (hns : r ≠ .singleFieldSubscriptions) :
     Silent s fx r ((Tr.mk id id ρ (fun _ => List.Perm.refl _) (fun _ => List.Perm.refl _)).doc d) ↔ Silent s fx r d :=
-  tr_invariance_all_partial _ hρ s fx d r hr
+  tr_invariance_all_partial _ hρ s fx d r hr hns
 
 end PyGql.Props.C06
